@@ -81,6 +81,14 @@ def run_case(ctx, res, p):
         except np.linalg.LinAlgError:
             Lgiven = None
 
+    # a numerically singular regularised system (a nearly singular kernel matrix plus a low-rank noise factor) has no
+    # meaningful float solution: weights of 1e12 and beyond, exp overflow in the positive-valued variants.  Such inputs are
+    # ill-posed, not violations; they are counted and skipped (the refusal twin of this case is handled below).
+    if Nmat is not None and Lgiven is None and ycf is not None and not y_is_mean:
+        c0 = np.linalg.cond(Kbb + Nmat)
+        if not np.isfinite(c0) or c0 > 1e12:
+            res.count("skipped:numerically-singular-noise-factor-system")
+            return
     # ---------------- implementation
     yimpl = Y
     try:
@@ -151,7 +159,19 @@ def run_case(ctx, res, p):
     # (a) mean formula: mu + k(Xq, basis) @ weights
     ref_mean = mu + Kqb @ w
     scale = max(np.max(np.abs(ref_mean)), abs(mu), 1e-300)
-    dev_formula = np.max(np.abs((np.exp(ref_mean) if variant == "exp" else ref_mean) - out)) / max(np.max(np.abs(out)), 1e-300)
+    with np.errstate(all="ignore"):
+        ref_out = np.exp(ref_mean) if variant == "exp" else ref_mean
+    # exp overflow of an enormous log-scale mean (ill-conditioned systems) must happen on both sides alike
+    fin = np.isfinite(ref_out.reshape(out.shape)) & np.isfinite(out)
+    if np.any(np.isfinite(ref_out.reshape(out.shape)) != np.isfinite(out)):
+        res.oracle_fail("prediction is non-finite where mu + k(Xq, basis) @ weights is finite (or vice versa)", p,
+                        signature="C01:nonfinite-prediction")
+        return
+    if not np.any(fin):
+        res.count("skipped:all-predictions-overflow")
+        return
+    with np.errstate(all="ignore"):
+        dev_formula = np.max(np.abs(ref_out.reshape(out.shape) - out)[fin]) / max(np.max(np.abs(out[fin])), 1e-300)
     # rounding of the dot product mu + sum_j k_j w_j is amplified by cancellation when the weights are large
     W2a = np.abs(cu.as2d(w))
     amp = float(np.max(np.abs(Kqb) @ W2a) + abs(mu)) / max(float(np.max(np.abs(ref_mean))), 1e-300)
@@ -225,9 +245,11 @@ def run_case(ctx, res, p):
     perm = np.random.default_rng(q * 7919 + n).permutation(q)
     outp = np.asarray(pred(Xq[perm]), float)
     single = np.stack([np.asarray(pred(Xq[i:i + 1]), float)[0] for i in range(min(q, 3))])
-    oscale = max(np.max(np.abs(out)), 1e-300)
-    d1 = np.max(np.abs(outp - out[perm])) / oscale
-    d2 = np.max(np.abs(single - out[:min(q, 3)])) / oscale
+    oscale = max(np.max(np.abs(out[fin])), 1e-300)
+    with np.errstate(all="ignore"):
+        same = lambda a_, b_: np.where(np.isfinite(a_) & np.isfinite(b_), np.abs(a_ - b_), np.where(a_ == b_, 0.0, np.inf))
+        d1 = np.max(same(outp, out[perm])) / oscale
+        d2 = np.max(same(single, out[:min(q, 3)])) / oscale
     res.dev("batch_independence_over_tol", max(d1, d2) / tol_formula)
     if max(d1, d2) > tol_formula:
         res.oracle_fail("a query row's value depends on the other rows / their order", p,
